@@ -9,6 +9,7 @@ import re
 from .. import clangjson as cj
 from .. import ir
 from .. import flow
+from .. import norm
 from .. import fstring as fs
 from .. import linear
 from ..linear import Lin
@@ -360,7 +361,13 @@ def rule_pub(rep, S, R="C02.pub"):
                 neg = arg[0] == "un" and arg[1] == "-" or (arg[0] == "lit" and str(arg[1]).startswith("-"))
                 cons = "adjust_size(%s)" % ir.show(arg)[:40]
                 if neg:
-                    rep.holds(R, lab, cons, where=d.where(n), detail="shrinks")
+                    verdict, why_ = _shrink_amount(S, d, fn, n, ir.ekids(n)[1], linit)
+                    if verdict == "bad":
+                        rep.violates(R, lab, cons, where=d.where(n), detail=why_)
+                    elif verdict == "unknown":
+                        rep.inconclusive(R, lab, cons, where=d.where(n), detail=why_)
+                    else:
+                        rep.holds(R, lab, cons, where=d.where(n), detail="shrinks" + ("; " + why_ if why_ else ""))
                     continue
                 # a difference whose sign is not visible in its spelling: not a growth that could be named
                 inner = ir.strip(ir.ekids(n)[1])
@@ -374,9 +381,253 @@ def rule_pub(rep, S, R="C02.pub"):
                 if ti[0] == "un" and ti[1] == "-":
                     rep.holds(R, lab, cons, where=d.where(n), detail="shrinks")
                 elif ti[0] == "bin" and ti[1] == "-" and "unsigned" not in ir.wtype(inner) and "size_t" not in ir.qtype(inner):
-                    rep.inconclusive(R, lab, cons, where=d.where(n), detail="the sign of the difference `%s` is not decided here" % ir.show(ti)[:60])
+                    why_neg = _difference_shrinks(d, fn, n, inner, linit)
+                    if why_neg:
+                        rep.holds(R, lab, cons, where=d.where(n), detail="shrinks: " + why_neg)
+                    else:
+                        rep.inconclusive(R, lab, cons, where=d.where(n), detail="the sign of the difference `%s` is not decided here" % ir.show(ti)[:60])
                 else:
                     rep.violates(R, lab, cons, where=d.where(n), detail="grows the length without a capacity check")
+
+
+def _own_size(t):
+    t = norm.uncast(t)
+    return t[0] == "call" and len(t) == 2 and ((t[1][0] == "mem" and t[1][2] in ("size", "length") and norm.uncast(t[1][1]) in (("this",), ("un", "*", ("this",))))
+                                                or t[1] in (("ref", "size"), ("ref", "length")))
+
+
+def _shrink_amount(S, d, fn, call, argnode, linit, depth=0):
+    """adjust_size(-k): the length only stays a length when k is at most the current size.  k is followed through casts and single-assignment locals:
+    a literal (pop_back: non-empty by contract), the smaller of something and `size() - e`, a difference `p - q` whose `p` is capped by the string's end,
+    `size() - e` itself; a bare parameter of a public member is not capped by anything -> violation; a parameter of a non-public worker is judged at the
+    worker's call sites.  -> ("ok" | "bad" | "unknown", text)"""
+    node = ir.strip(argnode)
+    if node.get("kind") == "UnaryOperator" and node.get("opcode") == "-":
+        node = ir.strip(ir.ekids(node)[0])
+
+    def peel(node, hops=0):
+        node = ir.strip(node)
+        while True:
+            if node.get("kind") in ("CXXStaticCastExpr", "CXXFunctionalCastExpr", "CStyleCastExpr", "ImplicitCastExpr", "MaterializeTemporaryExpr", "ExprWithCleanups") and ir.ekids(node):
+                node = ir.strip(ir.ekids(node)[-1])
+                continue
+            if node.get("kind") == "DeclRefExpr" and (node.get("referencedDecl") or {}).get("name") in linit and hops < 5 and \
+                    (node.get("referencedDecl") or {}).get("kind") == "VarDecl":
+                node = ir.strip(linit[(node.get("referencedDecl") or {}).get("name")])
+                hops += 1
+                continue
+            return node
+    node = peel(node)
+    k = node.get("kind")
+    t = norm.uncast(ir.sx(node))
+    if k == "IntegerLiteral":
+        return "ok", ""
+
+    def size_minus(tt):
+        tt = norm.uncast(tt)
+        if _own_size(tt):
+            return True
+        if tt[0] == "ref" and tt[1] in linit:
+            return size_minus(ir.sx(linit[tt[1]]))
+        return tt[0] == "bin" and tt[1] == "-" and size_minus(tt[2])
+    if size_minus(t):
+        return "ok", "`%s` is at most the size" % ir.show(t)[:40]
+    # min(x, y) / x < y ? x : y
+    two = None
+    if k == "CallExpr" and len(ir.ekids(node)) == 3 and ir.show(ir.sx(ir.ekids(node)[0])).endswith("min"):
+        two = ir.ekids(node)[1:]
+    elif k == "ConditionalOperator":
+        kk = ir.ekids(node)
+        c_ = ir.strip(kk[0])
+        if c_.get("kind") == "BinaryOperator" and c_.get("opcode") in ("<", "<=", ">", ">="):
+            l_, r_ = [norm.uncast(ir.sx(x)) for x in ir.ekids(c_)]
+            if c_.get("opcode") in (">", ">="):
+                l_, r_ = r_, l_
+            if norm.uncast(ir.sx(kk[1])) == l_ and norm.uncast(ir.sx(kk[2])) == r_:
+                two = kk[1:]
+    if two:
+        if any(size_minus(ir.sx(peel(x))) or size_minus(ir.sx(x)) for x in two):
+            return "ok", "the smaller of `%s` and `%s`" % tuple(re.sub(r"\s+", " ", d.text(x))[:30] for x in two)
+        return "unknown", "neither operand of `%s` is the size less something" % re.sub(r"\s+", " ", d.text(node))[:60]
+    if k == "BinaryOperator" and node.get("opcode") == "-":
+        # an iterator / pointer difference p - q: at most the size when p is capped by the end (q not before the beginning is the member's contract / guard)
+        why = _difference_shrinks(d, fn, call, _swap_operands(node), linit)
+        if why:
+            return "ok", why
+        return "unknown", "`%s` is not shown to be at most the size" % re.sub(r"\s+", " ", d.text(node))[:60]
+    if k == "DeclRefExpr" and (node.get("referencedDecl") or {}).get("kind") == "ParmVarDecl":
+        pname = (node.get("referencedDecl") or {}).get("name")
+        access = fs.member_access(S.cls)
+        if access.get(fn.get("id"), "public") == "public":
+            return "bad", "takes `%s` characters off the length, a parameter that nothing caps by the current size: for a larger value the length wraps around to a huge one" % pname
+        if depth >= 2:
+            return "unknown", "worker of a worker"
+        idx = [p_.get("name") for p_ in ir.params(fn)].index(pname)
+        sites = 0
+        for g in S.fns:
+            if g is fn:
+                continue
+            glinit = {v.get("name"): ir.ekids(v)[-1] for v in ir.walk_expr(g) if v.get("kind") == "VarDecl" and ir.ekids(v)}
+            for c_ in ir.walk_expr(ir.body(g) or {}):
+                if c_.get("kind") != "CXXMemberCallExpr":
+                    continue
+                cal = ir.strip(ir.ekids(c_)[0])
+                if cal.get("kind") != "MemberExpr" or cal.get("referencedMemberDecl") != fn.get("id"):
+                    continue
+                args = ir.ekids(c_)[1:]
+                if idx >= len(args):
+                    continue
+                sites += 1
+                v_, w_ = _shrink_amount(S, d, g, c_, args[idx], glinit, depth + 1)
+                if v_ != "ok":
+                    return v_, "called from %s with `%s`: %s" % (g.get("name"), re.sub(r"\s+", " ", d.text(args[idx]))[:40], w_)
+        if sites == 0:
+            return "unknown", "no call site of the worker %s found" % fn.get("name")
+        return "ok", "`%s` is capped at each of the %d call site(s) of this worker" % (pname, sites)
+    return "unknown", "the amount `%s` is not in a recognised form" % re.sub(r"\s+", " ", d.text(node))[:60]
+
+
+def _swap_operands(node):
+    """q - p for p - q (the argument order _difference_shrinks expects: first - last)"""
+    n2 = dict(node)
+    ks = ir.ekids(node)
+    n2["inner"] = [ks[1], ks[0]]
+    return n2
+
+
+def _difference_shrinks(d, fn, call, diff, linit):
+    """`a - b` handed to adjust_size: non-positive when every value b can take is at or behind a.  b is followed through its initialiser and the arms of a
+    `?:` / std::min; an arm that is the string's own end is behind `a` when the call sits under a test `a < end` / `a <= end`; an arm that is the
+    parameter `last` is behind the parameter `first` by the iterator-range contract [first, last) of the member.  -> reason or None"""
+    ks = ir.ekids(diff)
+    if len(ks) != 2:
+        return None
+    a = norm.uncast(ir.sx(ks[0]))
+    if a[0] != "ref":
+        return None
+    pnames = [p_.get("name") for p_ in ir.params(fn)]
+    ptypes = {p_.get("name"): ir.qtype(p_) for p_ in ir.params(fn)}
+
+    def is_end(t, depth=0):
+        t = norm.uncast(t)
+        if t[0] == "call" and len(t) == 2 and t[1][0] == "mem" and t[1][2] in ("cend", "end") and norm.uncast(t[1][1]) in (("this",), ("un", "*", ("this",))):
+            return True
+        if t[0] == "call" and len(t) == 2 and t[1] in (("ref", "cend"), ("ref", "end")):
+            return True
+        if t[0] == "ref" and t[1] in linit and depth < 3:
+            return is_end(ir.sx(linit[t[1]]), depth + 1)
+        return False
+
+    def arms(node, depth=0):
+        node = ir.strip(node)
+        while node.get("kind") in ("ImplicitCastExpr", "MaterializeTemporaryExpr", "ExprWithCleanups", "CXXBindTemporaryExpr", "CXXConstructExpr") and len(ir.ekids(node)) == 1:
+            node = ir.strip(ir.ekids(node)[0])
+        if node.get("kind") == "ConditionalOperator":
+            kk = ir.ekids(node)
+            c_ = ir.strip(kk[0])
+            if c_.get("kind") == "BinaryOperator" and c_.get("opcode") in ("<", "<=", ">", ">="):
+                l_, r_ = [norm.uncast(ir.sx(x)) for x in ir.ekids(c_)]
+                if c_.get("opcode") in (">", ">="):
+                    l_, r_ = r_, l_
+                # l_ < r_ ? l_ : r_   is the smaller of the two
+                if norm.uncast(ir.sx(kk[1])) == l_ and norm.uncast(ir.sx(kk[2])) == r_:
+                    return [("min", arms(kk[1], depth), arms(kk[2], depth))]
+            return [("either", arms(kk[1], depth), arms(kk[2], depth))]
+        if node.get("kind") == "CallExpr" and len(ir.ekids(node)) == 3 and ir.show(ir.sx(ir.ekids(node)[0])).endswith("min"):
+            return [("min", arms(ir.ekids(node)[1], depth), arms(ir.ekids(node)[2], depth))]
+        if node.get("kind") == "DeclRefExpr" and (node.get("referencedDecl") or {}).get("name") in linit and depth < 3 and not is_end(ir.sx(node)):
+            return arms(linit[(node.get("referencedDecl") or {}).get("name")], depth + 1)
+        return [node]
+    # tests dominating the call: conditions of enclosing if statements whose then-branch holds the call
+    guarded_end = False
+    cur, par = call, d.parent_of(call)
+    hops = 0
+    while par is not None and par is not fn and hops < 40:
+        if par.get("kind") == "IfStmt":
+            kk = ir.kids(par)
+            cond_i = 0
+            stmts_ = [x for x in kk]
+            # the then-branch is the statement after the condition
+            exprs = [x for x in stmts_ if x.get("kind") not in ("DeclStmt",)]
+            if len(exprs) >= 2 and exprs[1] is cur:
+                for c_ in [exprs[0]] + [x for x in ir.walk_expr(exprs[0])]:
+                    if c_.get("kind") == "BinaryOperator" and c_.get("opcode") in ("<", "<=", ">", ">="):
+                        l_, r_ = [norm.uncast(ir.sx(x)) for x in ir.ekids(c_)]
+                        if c_.get("opcode") in (">", ">="):
+                            l_, r_ = r_, l_
+                        if l_ == a and is_end(r_):
+                            # only conjunctions lead here: the test must hold on the way to the call
+                            up, ok_chain = d.parent_of(c_), True
+                            while up is not None and up is not par:
+                                if up.get("kind") == "BinaryOperator" and up.get("opcode") == "||":
+                                    ok_chain = False
+                                if up.get("kind") == "UnaryOperator" and up.get("opcode") == "!":
+                                    ok_chain = False
+                                up = d.parent_of(up)
+                            guarded_end = guarded_end or ok_chain
+        cur, par = par, d.parent_of(par)
+        hops += 1
+    if not guarded_end:
+        # path-wise: every path that reaches the call has passed a test `a < end` (early returns instead of an enclosing if)
+        try:
+            paths_ = flow.function_paths(fn, with_ctor_inits=False)
+        except cj.AnalysisBroken:
+            paths_ = []
+        NEG_ = {"<": ">=", "<=": ">", ">": "<=", ">=": "<"}
+        seen_call = 0
+        all_ok = True
+        for path_ in paths_:
+            at = None
+            for i_, st_ in enumerate(path_):
+                nd_ = st_[1] if len(st_) > 1 and isinstance(st_[1], dict) else None
+                if nd_ is not None and (nd_ is call or any(x is call for x in ir.walk_expr(nd_))):
+                    at = i_
+                    break
+            if at is None:
+                continue
+            seen_call += 1
+            ok_ = False
+            for st_ in path_[:at]:
+                if st_[0] != "cond" or not isinstance(st_[1], dict):
+                    continue
+                c_ = ir.strip(st_[1])
+                if c_.get("kind") != "BinaryOperator" or c_.get("opcode") not in NEG_:
+                    continue
+                op_ = c_.get("opcode") if st_[2] else NEG_[c_.get("opcode")]
+                l_, r_ = [norm.uncast(ir.sx(x)) for x in ir.ekids(c_)]
+                if op_ in (">", ">="):
+                    l_, r_, op_ = r_, l_, {">": "<", ">=": "<="}[op_]
+                if l_ == a and is_end(r_):
+                    ok_ = True
+            all_ok = all_ok and ok_
+        guarded_end = seen_call > 0 and all_ok
+    reasons = []
+
+    def capped(arm):
+        """is the value at most the string's end (so that no more is taken off than the string has)?"""
+        if isinstance(arm, tuple) and arm and arm[0] == "min":
+            return any(all(capped(x) for x in side) for side in (arm[1], arm[2]))
+        if isinstance(arm, tuple) and arm and arm[0] == "either":
+            return all(capped(x) for side in (arm[1], arm[2]) for x in side)
+        return is_end(norm.uncast(ir.sx(arm)))
+
+    def behind(arm):
+        if isinstance(arm, tuple) and arm and arm[0] in ("min", "either"):
+            return all(behind(x) for side in (arm[1], arm[2]) for x in side)
+        t = norm.uncast(ir.sx(arm))
+        if is_end(t):
+            if guarded_end:
+                reasons.append("`%s` is tested to lie before the end" % a[1])
+                return True
+            return False
+        if t[0] == "ref" and t[1] == "last" and a[1] == "first" and "first" in pnames and "last" in pnames and ptypes.get("first") == ptypes.get("last"):
+            reasons.append("[first, last) is the member's iterator range (first <= last by contract)")
+            return True
+        return False
+    al = arms(ks[1])
+    if al and all(behind(x) for x in al) and all(capped(x) for x in al):
+        return "; ".join(sorted(set(reasons))) + "; the subtrahend is capped by the end of the string"
+    return None
 
 
 def rule_exc(rep, S, d):
@@ -539,6 +790,10 @@ def run(tier):
         rule_extent(rep, S, caps[tag])
         rule_extent(rep, S, caps[tag], "read", "C02.reads")
         rule_capacity(rep, S, caps[tag])
+    from . import c01
+    c01.rule_enc_as(rep, "C02.enc", "the length every bound is checked against is the string's length: for every storage layout (packed N=1, 16, 255, 300 wide; size field; strlen) "
+                                    "and every length 0..N, size() decodes what set_size/adjust_size encoded - a size() that over-reports lets at(), copy() and append() "
+                                    "work behind the terminator and beyond the buffer")
     return rep
 
 
